@@ -12,7 +12,8 @@ implementation on trees/condition/fields; bit 2 Spec.Rewrite.rewrite_pipeline ==
 the two queries have equal truth tables under the verified target parser."""
 import itertools, json, random, re, string
 from vlib.core import Property, Suite, cstr, clist, cbool, copt, cnat
-from props.c01 import gen_value, gen_expr, spell, NAMES, FIELDS, STRS, lex, decode_atom, glob_match
+from props.c01 import gen_value, gen_expr, spell, NAMES, FIELDS, STRS, glob_match
+from props.c01_pyread import lex, decode_atom
 
 # =====================================================================================================
 # small string model (specification reading of Sigma strings; no sigma import)
@@ -1739,7 +1740,7 @@ PROPERTY = Property(
          "placeholder filter, non-matching scope) + hand-written hostile cases. non-trivial = the pipeline changed the rule.",
     assumptions=["re.sub of replace_string is an oracle: the model receives its finite table on the plain forms occurring in the rule",
                  "loading of rule documents (modifiers) is the implementation's; the trees after loading are the input of model and rewrite",
-                 "atoms of the two queries are identified by props/c01.py decode_atom (trusted reader); the spelling of the rewritten "
+                 "atoms of the two queries are identified by props/c01_pyread.py decode_atom (trusted reader); the spelling of the rewritten "
                  "document is validated per atom by reloading it (speller self-check)",
                  "condition text -> expression (name and (cond)) is C02's subject; the model produces the text, the rewrite the expression",
                  "string case mapping is exact for ASCII only; Python float parsing, query_expression_placeholders, hashes_fields, regex, "
